@@ -3,6 +3,7 @@
    set(v, range(...)): the slice fast path equals the per-position loop (the guard on the fast path is sufficient);
    *= n : n copies. *)
 From BS Require Import Prims BitsCore SeqProofs Mutators MutSpec MutProofs StoreProofs.
+From BS Require MirrorProofs.
 From Coq Require Import ZifyBool.
 Open Scope Z_scope.
 
@@ -162,3 +163,73 @@ Qed.
 
 Theorem imul_negative b n : n < 0 -> ba_imul false b n = Err ValueError.
 Proof. intros Hn. unfold ba_imul. destruct (n <? 0) eqn:E; [reflexivity|lia]. Qed.
+
+(* ---------- a[start:stop] = bits  and  del a[start:stop]  for ANY start / stop (negative, omitted, out of range, start > stop) ---------- *)
+(* Python's clamping of a unit-step slice *)
+Definition pyclamp (len : Z) (x : option Z) (dflt : Z) : Z :=
+  match x with None => dflt | Some v => clamp_index v len 0 len end.
+
+Lemma slice_indices_unit_any start stop len :
+  slice_indices (mkslice start stop None) len = Ok (pyclamp len start 0, pyclamp len stop len, 1).
+Proof. reflexivity. Qed.
+
+Lemma pyclamp_range len x d : 0 <= len -> 0 <= d <= len -> 0 <= pyclamp len x d <= len.
+Proof.
+  intros Hl Hd. unfold pyclamp, clamp_index. destruct x as [v|]; [|lia].
+  destruct (v <? 0) eqn:?; [destruct (v + len <? 0) eqn:?|destruct (v >? len) eqn:?]; lia.
+Qed.
+
+Theorem setslice_bits_any b start stop v :
+  ba_setitem_slice false b (mkslice start stop None) (VBits v) =
+  Ok (take (pyclamp (zlen b) start 0) b ++ v ++ drop (Z.max (pyclamp (zlen b) start 0) (pyclamp (zlen b) stop (zlen b))) b).
+Proof.
+  unfold ba_setitem_slice, setslice, setslice_msb0, ba_setslice. rewrite slice_indices_unit_any. cbn [bind].
+  change (1 =? 1) with true. cbv iota. set (a := pyclamp (zlen b) start 0). set (o := pyclamp (zlen b) stop (zlen b)).
+  unfold take, drop. destruct (o <? a) eqn:E; (f_equal; f_equal; f_equal; f_equal; lia).
+Qed.
+
+Theorem delslice_any b start stop :
+  ba_delitem_slice false b (mkslice start stop None) =
+  Ok (take (pyclamp (zlen b) start 0) b ++ drop (Z.max (pyclamp (zlen b) start 0) (pyclamp (zlen b) stop (zlen b))) b).
+Proof.
+  unfold ba_delitem_slice, delslice, delslice_msb0. pose proof (zlen_nonneg b) as Hl.
+  pose proof (pyclamp_range (zlen b) start 0 Hl ltac:(lia)) as Ha. pose proof (pyclamp_range (zlen b) stop (zlen b) Hl ltac:(lia)) as Ho.
+  set (a := pyclamp (zlen b) start 0) in *. set (o := pyclamp (zlen b) stop (zlen b)) in *.
+  unfold ba_delslice. rewrite slice_indices_unit_any. cbn [bind]. fold a o. f_equal.
+  unfold range_list. rewrite range_len_unit, MirrorProofs.remove_at_run. unfold take, drop. rewrite Z.sub_0_r. f_equal. f_equal. lia.
+Qed.
+
+(* frame: both keep everything before min(start') and everything from max(start', stop') on *)
+Corollary setslice_bits_length b start stop v :
+  forall r, ba_setitem_slice false b (mkslice start stop None) (VBits v) = Ok r ->
+  zlen r = zlen b - Z.max 0 (pyclamp (zlen b) stop (zlen b) - pyclamp (zlen b) start 0) + zlen v.
+Proof.
+  intros r H. rewrite setslice_bits_any in H. injection H as <-. pose proof (zlen_nonneg b) as Hl.
+  pose proof (pyclamp_range (zlen b) start 0 Hl ltac:(lia)) as Ha. pose proof (pyclamp_range (zlen b) stop (zlen b) Hl ltac:(lia)) as Ho.
+  rewrite !zlen_app, zlen_take, zlen_drop by lia. lia.
+Qed.
+
+(* a[start:stop] = integer: the value is encoded in exactly the width of the slice (unsigned if >= 0, two's complement if < 0; C02 gives the
+   encoding), a zero-width slice and a value that does not fit raise ValueError, and the rest of the content is untouched *)
+Theorem setslice_int_any b start stop v :
+  let a := pyclamp (zlen b) start 0 in let o := pyclamp (zlen b) stop (zlen b) in let n := Z.max 0 (o - a) in
+  ba_setitem_slice false b (mkslice start stop None) (VInt v) =
+  if n =? 0 then Err ValueError else
+  match int2ba v n (v <? 0) with
+  | Ok vb => Ok (take a b ++ vb ++ drop (Z.max a o) b)
+  | Err OverflowError => Err ValueError
+  | Err e => Err e
+  end.
+Proof.
+  cbn zeta. pose proof (zlen_nonneg b) as Hl.
+  pose proof (pyclamp_range (zlen b) start 0 Hl ltac:(lia)) as Ha. pose proof (pyclamp_range (zlen b) stop (zlen b) Hl ltac:(lia)) as Ho.
+  set (a := pyclamp (zlen b) start 0) in *. set (o := pyclamp (zlen b) stop (zlen b)) in *.
+  unfold ba_setitem_slice. cbn [s_step negb s_start s_stop].
+  unfold getslice, getslice_msb0, seq_slice. rewrite slice_indices_unit_any. cbn [bind]. fold a o.
+  unfold range_list. rewrite range_len_unit.
+  assert (Hz : zlen (map (znth false b) (progression a 1 (Z.to_nat (Z.max 0 (o - a))))) = Z.max 0 (o - a)).
+  { unfold zlen. rewrite map_length, progression_length. lia. }
+  rewrite Hz. unfold make_int. destruct (Z.max 0 (o - a) =? 0) eqn:E; [reflexivity|].
+  destruct (int2ba v (Z.max 0 (o - a)) (v <? 0)) as [vb|e]; [|destruct e; reflexivity].
+  cbn [bind]. pose proof (setslice_bits_any b start stop vb) as S. unfold ba_setitem_slice in S. exact S.
+Qed.
